@@ -526,6 +526,78 @@ fn block_flags(r: &mut Rng) -> u16 {
     f
 }
 
+
+/// the encoding records of a cmap table as the `c17.cmap` request expects them
+fn cmap_records_line(font: &FontRef) -> Option<String> {
+    let cmap = font.cmap().ok()?;
+    let mut out = vec![cmap.encoding_records().len().to_string()];
+    for rec in cmap.encoding_records() {
+        out.push((rec.platform_id() as u16).to_string());
+        out.push(rec.encoding_id().to_string());
+        match rec.subtable(cmap.offset_data()) {
+            Err(_) => out.push("fu".into()),
+            Ok(CmapSubtable::Format4(t)) => {
+                let n = t.end_code().len();
+                out.push(format!("f4 {} {}", t.language(), n));
+                out.extend(t.end_code().iter().map(|v| v.get().to_string()));
+                out.extend(t.start_code().iter().map(|v| v.get().to_string()));
+                out.extend(t.id_delta().iter().map(|v| v.get().to_string()));
+                out.extend(t.id_range_offsets().iter().map(|v| v.get().to_string()));
+                out.push(t.glyph_id_array().len().to_string());
+                out.extend(t.glyph_id_array().iter().map(|v| v.get().to_string()));
+            }
+            Ok(CmapSubtable::Format12(t)) => {
+                out.push(format!("f12 {} {}", t.language(), t.groups().len()));
+                for g in t.groups() {
+                    out.push(format!("{} {} {}", g.start_char_code(), g.end_char_code(), g.start_glyph_id()));
+                }
+            }
+            Ok(CmapSubtable::Format14(t)) => {
+                out.push(format!("f14 {}", t.var_selector().len()));
+                for r in t.var_selector() {
+                    out.push(r.var_selector().to_u32().to_string());
+                    match r.default_uvs(t.offset_data()).transpose().ok().flatten() {
+                        None => out.push("0 0".into()),
+                        Some(d) => {
+                            out.push(format!("1 {}", d.ranges().len()));
+                            for x in d.ranges() {
+                                out.push(format!("{} {}", x.start_unicode_value().to_u32(), x.additional_count()));
+                            }
+                        }
+                    }
+                    match r.non_default_uvs(t.offset_data()).transpose().ok().flatten() {
+                        None => out.push("0 0".into()),
+                        Some(d) => {
+                            out.push(format!("1 {}", d.uvs_mapping().len()));
+                            for x in d.uvs_mapping() {
+                                out.push(format!("{} {}", x.unicode_value().to_u32(), x.glyph_id()));
+                            }
+                        }
+                    }
+                }
+            }
+            Ok(other) => out.push(format!("fo {} {}", other.format(), other.language())),
+        }
+    }
+    Some(out.join(" "))
+}
+
+fn counted<T: std::fmt::Display>(v: &[T]) -> String {
+    if v.is_empty() {
+        "0".into()
+    } else {
+        format!("{} {}", v.len(), join(v))
+    }
+}
+
+fn counted_pairs(v: &[(u32, u32)]) -> String {
+    if v.is_empty() {
+        "0".into()
+    } else {
+        format!("{} {}", v.len(), pairs_line(v))
+    }
+}
+
 /// Every retained Unicode subtable of the subset and skrifa's Charmap against the original, through the glyph map.
 fn cmap_oracles(s: &mut Session, label: &str, data: &[u8], req: &Req, r: &mut Rng) {
     let input = format!(
@@ -545,7 +617,41 @@ fn cmap_oracles(s: &mut Session, label: &str, data: &[u8], req: &Req, r: &mut Rn
     };
     let view = vh::plan_view(&plan);
     let gmap: BTreeMap<u32, u32> = view.glyph_map.iter().copied().collect();
-    let out = match catch(|| subset_font(&font, &plan)) {
+    // table level correspondence: `Cmap::subset` + serializer packing as a whole
+    let line = cmap_records_line(&font).map(|recs| {
+        format!(
+            "c17.cmap {} {} {} {} {} {}",
+            view.font_num_glyphs,
+            counted(&view.unicodes),
+            counted_pairs(&view.unicode_to_new_gid_list),
+            counted(&req.gids),
+            counted_pairs(&view.glyph_map),
+            recs
+        )
+    });
+    let result = catch(|| subset_font(&font, &plan));
+    if let Some(line) = line {
+        let resp = match &result {
+            Err(_) => "trap".to_string(),
+            Ok(Err(klippa::SubsetError::SubsetTableError(t))) if *t == Tag::new(b"cmap") => "fail".to_string(),
+            Ok(Err(_)) => "other-table-failed".to_string(),
+            Ok(Ok(o)) => match FontRef::new(o).ok().and_then(|f| f.table_data(Tag::new(b"cmap")).map(|d| hex(d.as_bytes()))) {
+                Some(h) => format!("ok {h}"),
+                None => "absent".to_string(),
+            },
+        };
+        if resp != "other-table-failed" {
+            s.count(&format!("cmap-table:outcome={}", resp.split(' ').next().unwrap_or("")));
+            if let Ok(path) = std::env::var("C17_CMAP_DUMP") {
+                use std::io::Write;
+                if let Ok(mut f) = std::fs::OpenOptions::new().create(true).append(true).open(path) {
+                    let _ = writeln!(f, "{line}");
+                }
+            }
+            s.case("cmap-table", line, resp);
+        }
+    }
+    let out = match result {
         Ok(Ok(o)) => o,
         Ok(Err(e)) => {
             orc(s, "subset-returns-ok", false, || input.clone(), || format!("{e:?}"));
@@ -560,10 +666,24 @@ fn cmap_oracles(s: &mut Session, label: &str, data: &[u8], req: &Req, r: &mut Rn
         orc(s, "subset-reopens", false, || input.clone(), || "FontRef::new failed".into());
         return;
     };
-    let (Ok(ocmap), Ok(scmap)) = (font.cmap(), sub.cmap()) else {
+    let Ok(ocmap) = font.cmap() else { return };
+    let Ok(scmap) = sub.cmap() else {
         s.count("cmap-blocks:no-cmap-in-subset");
+        // same name / key as the whole-table oracle of c17.rs (known finding C17-cmap-ms-bmp-format12)
+        let over = RECORDED.with(|m| {
+            let mut m = m.borrow_mut();
+            let c = m.entry(format!("cmap-table-kept@{label}")).or_insert(0);
+            *c += 1;
+            *c > 2
+        });
+        if !over {
+            s.oracle("cmap-table-kept", false, || input.clone(), || "the original has a cmap table, subset_font returned Ok, the subset has none".into());
+        } else {
+            s.oracle_checks += 1;
+        }
         return;
     };
+    s.oracle("cmap-table-kept", true, || input.clone(), String::new);
     let uniset: BTreeSet<u32> = req.unicodes.iter().copied().collect();
     let gidset: BTreeSet<u32> = req.gids.iter().copied().collect();
     let ocm = font.charmap();
